@@ -12,7 +12,7 @@ From Coq Require Import List NArith ZArith Bool.
 From ApiFu Require Import Base.Sexp Intro.Utf8 Intro.IntrospectModel Intro.MarshalValue Intro.LiteralSpec
      Intro.IntrospectSpec Intro.Rebuild Intro.RebuildSpec Intro.Clone
      Intro.GraphProofs Intro.IntrospectProofs Intro.RefsProofs Intro.MarshalProofs Intro.RebuildProofs Intro.CloneProofs
-     Intro.Refuted Intro.ViewBridge.
+     Intro.Refuted Intro.ViewBridge Intro.FloatLex.
 Import ListNotations.
 
 (** ** which types are listed *)
@@ -105,18 +105,41 @@ Proof. exact introspect_refs_resolve. Qed.
     field that has a default, so reading the literal back adds nothing.  [enums_ok], [inputs_ok]:
     enum value names and input field names are GraphQL names (shallowValidate).
 
-    FULL STATEMENT, proved except for one kind of leaf:
+    Floats: the text Go prints for a finite float64 — optional '-', digits, optional '.digits',
+    optional 'e', sign, digits — is always an IntValue or FloatValue literal
+    ([C10_go_float_text_is_literal]), so a Float default of any value is inside the theorem as far
+    as reading the text back goes.
+
+    FULL STATEMENT, proved except for the value of a float's digits:
       forall S v t, enums_ok S -> inputs_ok S -> default_conforms S v t = true -> (strings of v within
       U+0000..U+FFFF without surrogates) -> exists txt, marshal S v t = MOk txt /\ literal_denotes S t txt v = true.
-    Missing: Float values that are not integral ([printable] demands that the text Go printed is
-    the decimal of an integer: strconv's shortest-round-trip formatting is not modelled).  For
-    those the clause is evaluated by the oracle on every generated default — the text Go printed
-    must parse as a Float literal whose exact rational value rounds to the configured float64
-    ([rounds_to]) — and end to end with the real parser. *)
+    Missing: that the decimal strconv chooses for a float64 rounds back to that float64
+    (shortest-round-trip digit generation is not modelled).  [printable] carries it as a premise
+    for each Float in the value ([float_lit_rounds (the literal read) m e = true], an exact rational
+    comparison); the check evaluates exactly this premise on every generated default, and the
+    real parser + coercion re-read the text. *)
 Theorem C10_default_roundtrip_partial : forall (S : schema), enums_ok S -> inputs_ok S -> forall v t,
   default_conforms S v t = true -> printable v ->
   exists txt, marshal S v t = MOk txt /\ literal_denotes S t txt v = true.
 Proof. exact default_roundtrip_values. Qed.
+
+(** every text in the format encoding/json / strconv print a finite float in is a number literal
+    of the grammar: [lex_number] reads all of it and returns the integer ([LInt]) when there is
+    neither fraction nor exponent, else the exact decimal [LFloat n e10] = n * 10^e10 *)
+Theorem C10_go_float_text_is_literal : forall neg ip fp ex rest,
+  go_float_ok ip fp ex -> follow_ok rest ->
+  lex_number (go_float_text neg ip fp ex ++ rest) = Some (go_float_lit neg ip fp ex, rest).
+Proof. exact lex_number_go. Qed.
+
+(** ... and a number token of C07's lexer specification (coq/Lex/LexSpec.v): [match_int] matches
+    sign and integer part; [match_float] matches the whole text when it has a fraction or an
+    exponent, and nothing otherwise (the text is then an IntValue) *)
+Theorem C10_go_float_text_is_token : forall neg ip fp ex rest,
+  go_float_ok ip fp ex -> follow_ok rest ->
+  let txt := go_float_text neg ip fp ex in
+  LS.match_int (txt ++ rest) = Some (length ((if neg then [45%N] else []) ++ ip)) /\
+  LS.match_float (txt ++ rest) = match fp, ex with [], None => None | _, _ => Some (length txt) end.
+Proof. exact go_float_text_is_token. Qed.
 
 (** KNOWN (key default-string-astral): the restriction of [printable] to U+0000..U+FFFF cannot be
     dropped.  encoding/json leaves an astral character as its four UTF-8 bytes, the lexer's source
@@ -163,39 +186,43 @@ Theorem C10_rebuild_same_verdicts_partial : forall S F r,
   exists R, rebuild (map_defaults dflt_text r) = Some R /\ canon R = canon (erase S F).
 Proof. exact rebuild_same_for_validation. Qed.
 
-(** ... and therefore answers every schema lookup of the validator the way the visible part of the
-    original does.  The lookups are C13's ([FM.ask], coq/Feat/FeaturesModel.v: root types, type by
+(** ... and therefore answers every schema lookup of the validator the way the original does for
+    the request.  The lookups are C13's ([FM.ask], coq/Feat/FeaturesModel.v: root types, type by
     name, kind, GetField, possible types, enum values, input fields, directive by name — the
-    validator's view [FM.in_view_validator]); [to_feat] abstracts a C10 definition to a C13 schema;
-    [ans_eq] compares answers as finite maps / sets (what comes out of a Go map has no order) and
-    without the feature annotations and resolver tag a rebuilt definition cannot carry.  Any
-    feature sets [G], [G']: neither definition has anything gated left.
-
-    FULL STATEMENT, proved only in part:
-      ... ans_eq (FM.ask FM.fixed (to_feat R) G q) (FM.ask FM.fixed (to_feat (registered S)) F q)
-      for every q of the validator's view whose type pointers the request may hold; with
-      C13_noninterference: every consumer that sees the schema only through these lookups and does
-      not depend on map order computes the same on R and on (S, F) — same verdicts.
-    Missing: (a) [to_feat (erase S F)] is C13's [FS.erase (to_feat (registered S)) F] up to [fsim]
-    (C13 keeps the feature annotations and the registry order, C10's erase strips and sorts; the
-    relation [fsim] and [ask_sim] below are built for exactly this step, the lemma itself is not
-    proved), after which [C13_view_erase_eq] closes the chain; (b) the validator itself (C04).
-    Both remain covered by validating generated documents on both real schemas. *)
-Theorem C10_rebuild_same_lookups_partial : forall S F r,
+    validator's view [FM.in_view_validator] — and the executor's by-name lookup, abstract-type
+    candidates and doesFragmentTypeApply — [FM.in_view_executor]); [to_feat] abstracts a C10 definition to a C13 schema,
+    [registered S] is [S] with the types schema.New registers; [ans_eq] compares answers as finite
+    maps / sets (what comes out of a Go map has no order) and without the feature annotations and
+    the resolver tag, which a rebuilt definition cannot carry.  The rebuilt definition is asked
+    with ANY feature set [G] (nothing in it is gated), the original with the request's [F].
+    Premise on [q] as in C13: the type pointers a lookup is applied to are ones the request may
+    hold.  Additional hypotheses: type names are unique (Go pointers / schema.New) and
+    [FM.schema_ok] — C13's transcription of schema.New's acceptance checks — holds of the
+    definition (both true of every schema value).
+    Chain of the proof: [C13_view_erase_eq] (asking (S, F) = asking C13's erased schema), then
+    [erase_fsim] (C13's erased schema is C10's [erase S F] up to [fsim]), [fsim_of_canon] with the
+    previous theorem, and [ask_sim].
+    With C13_noninterference in mind: a consumer that sees the schema only through these lookups
+    and does not depend on map order computes the same on R and on (S, F).  What stays outside:
+    the validator itself (C04's model), the presence of argument defaults (not part of C13's
+    lookups; it is part of [canon], previous theorem), introspection's own listings (the QIntro queries). *)
+Theorem C10_rebuild_same_lookups : forall S F r,
   depth_ok S = true -> interfaces_declared_once S = true -> locations_known S = true ->
   refs_defined S = true -> gating_nested S = true -> roots_visible S F = true ->
   builtins_consistent S = true -> kinds_ok S = true -> scalars_accept_all S = true -> defaults_denote S ->
+  NoDup (map fst (types S)) -> FM.schema_ok (to_feat (registered S)) = true ->
   introspect (print_default S) S F = IntroOk r ->
   exists R, rebuild (map_defaults dflt_text r) = Some R /\
-    forall G G' q, FM.in_view_validator q = true ->
-      ans_eq (FM.ask FM.fixed (to_feat R) G q) (FM.ask FM.fixed (to_feat (erase S F)) G' q).
-Proof. exact rebuild_same_lookups. Qed.
+    forall G q, FM.in_view_validator q || FM.in_view_executor q = true ->
+      (forall h, In h (FM.handle_args q) -> FS.visible (to_feat (registered S)) F h = true) ->
+      ans_eq (FM.ask FM.fixed (to_feat R) G q) (FM.ask FM.fixed (to_feat (registered S)) F q).
+Proof. exact rebuild_same_lookups_full. Qed.
 
 (** two C13 schemas that are the same up to map order and feature annotations ([fsim]) answer
-    every lookup of the validator's view alike for requests that see everything in them *)
+    every lookup of the validator's and the executor's view alike for requests that see everything in them *)
 Theorem C10_similar_schemas_answer_alike : forall A B GA GB,
   fsim A B -> all_visible A GA -> all_visible B GB ->
-  forall q, FM.in_view_validator q = true -> ans_eq (FM.ask FM.fixed A GA q) (FM.ask FM.fixed B GB q).
+  forall q, FM.in_view_validator q || FM.in_view_executor q = true -> ans_eq (FM.ask FM.fixed A GA q) (FM.ask FM.fixed B GB q).
 Proof. exact ask_sim. Qed.
 
 (** KNOWN (key rebuilt-scalar-accepts-any-literal): [scalars_accept_all] cannot be dropped.  With
@@ -242,9 +269,11 @@ Print Assumptions C10_typeref_complete_at_depth.
 Print Assumptions C10_deep_chain_truncated_refuted.
 Print Assumptions C10_introspect_refs_resolve.
 Print Assumptions C10_default_roundtrip_partial.
+Print Assumptions C10_go_float_text_is_literal.
+Print Assumptions C10_go_float_text_is_token.
 Print Assumptions C10_default_astral_refuted.
 Print Assumptions C10_rebuild_same_verdicts_partial.
-Print Assumptions C10_rebuild_same_lookups_partial.
+Print Assumptions C10_rebuild_same_lookups.
 Print Assumptions C10_similar_schemas_answer_alike.
 Print Assumptions C10_rebuild_picky_scalar_refuted.
 Print Assumptions C10_clone_same_definition.
